@@ -13,6 +13,9 @@ import sys
 
 FIXES = {  # subject prefix -> properties whose check must fire when the fix is reverted
     "fix: config.set records": ["C17"],
+    "fix: blockwise(align_arrays=False)": ["C25"],
+    "fix: argtopk with k >= n": ["C22"],
+    "fix: topk and argtopk declare": ["C22"],
     "fix: Layer.clone renames GraphNode": ["C16"],
     "fix: dataframe collections accept rename": ["C16"],
     "fix: array-expression collections accept rename": ["C16"],
